@@ -733,7 +733,9 @@ func (vc *FnVC) typeFacts(st *State, t types.Type, term string) string {
 			smtImp(sx("=", sx("s.base", term), "0"), sx("=", sx("s.cap", term), "0")))
 	case *types.Pointer:
 		if isStruct(u.Elem()) {
-			return sx("<=", term, vc.allocTerm(st))
+			// element references (negative) are allocated when the array they live in is: without the root fact a
+			// pointer parameter could alias an element of an array that `append` allocates later in the function
+			return smtAnd(sx("<=", term, vc.allocTerm(st)), sx("<=", sx("ref.root", term), vc.allocTerm(st)))
 		}
 		return smtAnd(sx("<=", "0", term), sx("<=", term, vc.allocTerm(st)))
 	case *types.Map, *types.Chan:
